@@ -53,6 +53,9 @@ def gen(r, tier, i):
             overrides.append({'path': ['st', 'p%d' % pid], 'emit': r.random() < 0.5})
     if r.random() < 0.15:
         overrides.append({'path': ['shared'], 'emit': r.random() < 0.5})
+    if r.random() < 0.3:
+        # a branch holding an ordinary variable and one that is only declared through a '**' port
+        overrides.append({'path': r.choice([['deep'], ['deep'], ['deep', 'blob'], ['deep', 'n']]), 'emit': r.random() < 0.7})
     script = {}
     if r.random() < 0.5:
         t = 1.0
@@ -149,6 +152,16 @@ def build(spec, emit_step):
         def next_update(self, timestep, states):
             return {'out': {'twice': 2 * states['out']['sum']}}
 
+    class Deep(Process):
+        def ports_schema(self):
+            return {'D': '**', 'E': {'n': {'_default': 0, '_emit': False}}}
+
+        def calculate_timestep(self, states):
+            return 1.0
+
+        def next_update(self, timestep, states):
+            return {'E': {'n': 1}}
+
     class Director(Process):
         def ports_schema(self):
             sub = {'x': {'_default': 7, '_emit': spec['emit_cell'], '_divider': 'set'},
@@ -183,6 +196,8 @@ def build(spec, emit_step):
         processes[name] = EmitProc({'ts': p['ts'], 'emit': p['emit']})
         topology[name] = {'S': ('st', name), 'shared': ('shared',)}
     processes['dir'] = Director({'script': spec['script'], 'timestep': 1.0})
+    processes['deepp'] = Deep({})
+    topology['deepp'] = {'D': ('deep', 'blob'), 'E': ('deep',)}
     topology['dir'] = {'cells': ('cells',), 'cells2': ('cells2',), 'clk': ('clk',)}
     steps = {'sum': SumStep(), 'twice': Twice()}
     topology['sum'] = {'st': ('st',), 'out': ('out',)}
@@ -195,7 +210,7 @@ def build(spec, emit_step):
             node = node.setdefault(k, {})
         node['_emit'] = o['emit']
     e = MonEngine(processes=processes, steps=steps, flow=flow, topology=topology,
-                  initial_state={'cells': {}, 'cells2': {}}, display_info=False,
+                  initial_state={'cells': {}, 'cells2': {}, 'deep': {'blob': 7}}, display_info=False,
                   emitter={'type': 'vmon_rec', 'snapshot': True}, emit_step=emit_step,
                   store_schema=store_schema or None, initial_global_time=spec['t0'])
     return e
@@ -213,6 +228,8 @@ def flags(spec):
     f[('out', 'sum')] = spec['emit_sum']
     f[('out', 'twice')] = True
     f[('clk',)] = False
+    f[('deep', 'n')] = False
+    f[('deep', 'blob')] = False
     for o in spec['overrides']:
         pre = tuple(o['path'])
         for k in list(f):
@@ -231,7 +248,7 @@ def expected_row(spec, snap, fl):
             node = node.setdefault(k, {})
         node[path[-1]] = value
     # branches always appear
-    for b in (('st',), ('shared',), ('out',), ('cells',), ('cells2',)):
+    for b in (('st',), ('shared',), ('out',), ('cells',), ('cells2',), ('deep',)):
         if not snap.get(b[0]):
             continue        # a store without children emits nothing
         node = out
